@@ -13,7 +13,8 @@
 (* not order them, so the aux entries may come in any key order (keys        *)
 (* pairwise distinct) and the invalid list may be unsorted, repeat an index  *)
 (* or name an index beyond the last transaction; only membership matters.    *)
-(* has_invalid is FALSE for eras without such a list (tag < 5).  Byron main  *)
+(* has_invalid says whether the block carries the list at all (any tag: the  *)
+(* decoder accepts it under every Shelley+ wrapper).  Byron main            *)
 (* blocks (tag 1) carry <<tx, witnesses>> pairs: same projection with an     *)
 (* empty aux map and no invalid list; epoch boundary blocks (tag 0) carry no *)
 (* transactions.                                                             *)
